@@ -298,6 +298,8 @@ def open_reader(fmt, simfile, rp):
     kw = {}
     if rp.get('remap'):
         kw['remap'] = True
+    if rp.get('calc_ct'):
+        kw['calc_cis_trans'] = True
     if rp.get('buffer_size') and fmt != 'mrv':
         kw['buffer_size'] = rp['buffer_size']
     bs = rp.get('bufsize', 8192)
@@ -371,10 +373,10 @@ def sequential_read(fmt, simfile, rp):
     return out, exc, raw
 
 
-def seq_outcomes(fmt, text_bytes):
+def seq_outcomes(fmt, text_bytes, calc_ct=False):
     """Per record index: ('ok', view) | ('err', type) as a plain sequential reader sees them."""
     sf = SimFile(text_bytes)
-    reader, _ = open_reader(fmt, sf, {})
+    reader, _ = open_reader(fmt, sf, {'calc_ct': calc_ct})
     out = []
     while True:
         try:
@@ -582,6 +584,7 @@ def _execute(trace, probes, scratch):
     # ---- read phase(s)
     for rp in trace.get('reads') or [{}]:
         rp = dict(rp)
+        rp['calc_ct'] = bool(trace.get('calc_ct'))
         if rp.get('indexed'):
             if faulty or fmt == 'mrv':
                 continue
@@ -621,6 +624,15 @@ def _execute(trace, probes, scratch):
                 if d:
                     raise Violation(f'roundtrip-mismatch:{diff_field(d)}', f'{fmt} record {i}: {d}')
             probes['roundtrips_equal'] += len(views)
+            for e in expected:
+                for mv in ([e] if e.get('kind') == 'mol' else e['r'] + e['p'] + e['a']):
+                    st = mv.get('stereo')
+                    if st:
+                        probes['stereo_molecules_roundtripped'] += 1
+                        for x in st:
+                            probes['stereo_label_roundtripped:' + str(x[0])] += 1
+                    elif st is None:
+                        probes['stereo_excluded_explicit_h'] += 1
         else:
             # the intact records must come back, in order, as a subsequence of what the reader yields
             j = 0
@@ -685,8 +697,10 @@ def _indexed_phase(fmt, data, expected, rp, probes, scratch):
     old = MR.gettempdir
     MR.gettempdir = lambda: d      # the index cache can never leak into (or from) the real temp directory
     try:
-        seq = seq_outcomes(fmt, data)
-        R = _cls(FORMATS[fmt]['reader'])
+        seq = seq_outcomes(fmt, data, rp.get('calc_ct'))
+        RR = _cls(FORMATS[fmt]['reader'])
+        ckw = {'calc_cis_trans': True} if rp.get('calc_ct') else {}
+        R = lambda p, **k: RR(p, **k, **ckw)   # noqa: E731
         reader = R(path, indexable=True)
         probes['indexed_phases'] += 1
         try:
@@ -810,6 +824,7 @@ def draw_config(rng):
         'name_p': rng.choice([0.0, 0.6, 1.0]),
         'meta_p': rng.choice([0.0, 0.6, 1.0]),
         'mode': rng.choice(['clean', 'clean', 'writefault', 'writefault', 'damage', 'damage', 'readfault', 'indexed']),
+        'calc_ct': rng.random() < 0.5,
     }
 
 
@@ -820,7 +835,7 @@ def generate(seed):
     fmt = s.choice(['sdf', 'esdf', 'rdf', 'erdf', 'mrv'])
     if cfg['mode'] == 'indexed' and fmt == 'mrv':
         fmt = s.choice(['sdf', 'esdf', 'rdf', 'erdf'])
-    trace = {'property': PROP, 'seed': seed, 'config': cfg, 'fmt': fmt}
+    trace = {'property': PROP, 'seed': seed, 'config': cfg, 'fmt': fmt, 'calc_ct': cfg['calc_ct']}
     trace['records'] = [gen_record_spec(w, cfg, FORMATS[fmt]['rxn']) for _ in range(cfg['n_records'])]
     wp = {'bufsize': s.choice([16, 64, 512, 4096, 8192]), 'flush_every': s.choice([0, 0, 1, 2]),
           'write_through': s.random() < 0.2, 'clock': [s.choice([1, 60, 86400, -3600, 10 ** 7]) for _ in range(3)]}
